@@ -40,7 +40,7 @@ theorem partition_spec [Inhabited α] (keep : α → Bool) (mem : List α) (h : 
   have hwl := window_length mem h hw
   by_cases h0 : h.len = 0
   · have hnil : window mem h = [] := List.eq_nil_of_length_eq_zero (by omega)
-    refine ⟨mem, h, by simp [partition, h0], rfl, by simp [hnil], by simp [hnil, h0],
+    refine ⟨mem, h, by simp [partition_def, h0], rfl, by simp [hnil], by simp [hnil, h0],
       Or.inr ⟨h0, rfl⟩, List.Perm.refl _, rfl, rfl, rfl⟩
   · obtain ⟨w, h1, h2, h3⟩ := partitionW_spec keep (window mem h)
     have hlw : w.length = h.len := by rw [h3.length_eq, hwl]
@@ -50,7 +50,7 @@ theorem partition_spec [Inhabited α] (keep : α → Bool) (mem : List α) (h : 
     refine ⟨store mem h w, ⟨h.off + 0, ((window mem h).filter keep).length - 0,
         ((window mem h).filter keep).length - 0⟩, ?_, rfl, ?_, rfl, Or.inl rfl, ?_,
       store_length mem h hw w hlw, store_take mem h hw w, store_drop mem h hw w hlw⟩
-    · simp only [partition, if_neg h0, h1]
+    · simp only [partition_def, if_neg h0, h1]
       have := slice3_nat h 0 ((window mem h).filter keep).length ((window mem h).filter keep).length
         (by omega) (Nat.le_refl _) (by omega)
       simp only [Int.natCast_zero] at this
@@ -166,12 +166,12 @@ theorem chunks_spec (mem : List α) (h : Hdr) (hw : h.WF mem.length) (n : Int) :
         (n = 0 → cs = [h])) := by
   have hw' := hw
   obtain ⟨hlc, _⟩ := hw'
-  refine ⟨fun hn => by simp [chunks, hn], fun hn => ?_⟩
+  refine ⟨fun hn => by simp [chunks_def, hn], fun hn => ?_⟩
   have key : ∀ cs, Tiles h.off h.stop cs → (cs.map (window mem ·)).flatten = window mem h :=
     fun cs ht => tiles_window mem h hw cs ht
   by_cases hs : n = 0 ∨ n ≥ h.len
   · refine ⟨[h], ?_, ?_, key _ ?_, ?_, ?_, fun _ => rfl⟩
-    · simp [chunks, Int.not_lt.mpr hn, hs]
+    · simp [chunks_def, Int.not_lt.mpr hn, hs]
     · simp [Tiles, Hdr.stop]
     · simp [Tiles, Hdr.stop]
     · intro c hc; simp only [List.mem_singleton] at hc; subst hc; exact ⟨hlc, Or.inr rfl⟩
@@ -181,7 +181,7 @@ theorem chunks_spec (mem : List α) (h : Hdr) (hw : h.WF mem.length) (n : Int) :
     obtain ⟨cs, hcs, ht, _, hall, hdl⟩ := chunksLoop_spec h hlc n.toNat hn0 h.len 0 (by omega) (by omega)
     have ht' : Tiles h.off h.stop cs := by simpa [Hdr.stop] using ht
     refine ⟨cs, ?_, ht', key _ ht', ?_, ?_, fun h0 => absurd (Or.inl h0) hs⟩
-    · simp only [chunks, Int.not_lt.mpr hn, if_neg hs, if_false]; exact hcs
+    · simp only [chunks_def, Int.not_lt.mpr hn, if_neg hs, if_false]; exact hcs
     · intro c hc; have := hall c hc; exact ⟨by omega, Or.inl this.1⟩
     · intro _
       refine ⟨fun c hc => ?_, fun c hc => ?_, fun _ c hc => (hall c hc).2.1⟩
@@ -208,13 +208,13 @@ theorem batches_spec (mem : List α) (h : Hdr) (hw : h.WF mem.length) (n : Int) 
         (∀ b ∈ bs, ∀ b' ∈ bs, b.len ≤ b'.len + 1)) := by
   have hw' := hw
   obtain ⟨hlc, _⟩ := hw'
-  refine ⟨fun hn => by simp [batches, hn], fun hn => ?_⟩
+  refine ⟨fun hn => by simp [batches_def, hn], fun hn => ?_⟩
   by_cases h0 : n = 0
   · subst h0
-    exact ⟨[], by simp [batches], by simp, fun h => absurd h (by omega), by simp, by simp⟩
+    exact ⟨[], by simp [batches_def], by simp, fun h => absurd h (by omega), by simp, by simp⟩
   by_cases hl0 : h.len = 0
   · refine ⟨[], ?_, by simp; omega, fun _ => ?_, by simp, by simp⟩
-    · simp only [batches, Int.not_lt.mpr hn, h0, if_false]
+    · simp only [batches_def, Int.not_lt.mpr hn, h0, if_false]
       have hgt : n > (h.len : Int) := by omega
       rw [if_pos hgt, hl0]; rfl
     · have ht : Tiles h.off h.stop [] := by simp [Tiles, Hdr.stop, hl0]
@@ -233,7 +233,7 @@ theorem batches_spec (mem : List α) (h : Hdr) (hw : h.WF mem.length) (n : Int) 
     (by omega) hdm (Nat.le_of_lt (Nat.mod_lt _ hm1)) hm2
   have ht' : Tiles h.off h.stop bs := by simpa [Hdr.stop] using ht
   refine ⟨bs, ?_, ?_, fun _ => ⟨ht', tiles_window mem h hw _ ht'⟩, fun b hb => (hall b hb).1, ?_⟩
-  · simp only [batches, Int.not_lt.mpr hn, h0, if_false, ← hm]
+  · simp only [batches_def, Int.not_lt.mpr hn, h0, if_false, ← hm]
     have : ¬ ((m : Int) = 0) := by omega
     simp only [this, if_false, Int.toNat_natCast]
     exact hbs
@@ -275,12 +275,12 @@ theorem head_spec (mem : List α) (h : Hdr) (hw : h.WF mem.length) (n : Int) (hn
       window mem r = (window mem h).take n.toNat := by
   obtain ⟨hlc, _⟩ := hw
   by_cases hlt : (h.len : Int) < n
-  · refine ⟨h, by simp [head, hlt], rfl, by omega, ?_⟩
+  · refine ⟨h, by simp [head_def, hlt], rfl, by omega, ?_⟩
     rw [List.take_of_length_le]
     simp only [window, List.length_take, List.length_drop]; omega
   · obtain ⟨k, rfl⟩ : ∃ k : Nat, n = k := ⟨n.toNat, by omega⟩
     refine ⟨⟨h.off + 0, k - 0, h.cap - 0⟩, ?_, rfl, by simp; omega, ?_⟩
-    · simp only [head, if_neg hlt]
+    · simp only [head_def, if_neg hlt]
       exact slice2_nat h 0 k (by omega) (by omega)
     · simp only [Nat.add_zero, Nat.sub_zero, Int.toNat_natCast]
       exact window_prefix mem h k _ (by omega)
@@ -288,7 +288,7 @@ theorem head_spec (mem : List α) (h : Hdr) (hw : h.WF mem.length) (n : Int) (hn
 /-- a negative `n` (not documented) is a slice-bounds panic -/
 theorem head_neg (h : Hdr) (n : Int) (hn : n < 0) : head h n = .panic "bounds" := by
   have : ¬ ((h.len : Int) < n) := by omega
-  simp only [head, if_neg this, slice2]
+  simp only [head_def, if_neg this, slice2]
   rw [if_neg (by omega)]
 
 /-- **Tail(vs, n)** for `n ≥ 0`: the last `min n (len vs)` elements, as a subslice ending where `vs` ends -/
@@ -297,13 +297,13 @@ theorem tail_spec (mem : List α) (h : Hdr) (hw : h.WF mem.length) (n : Int) (hn
       window mem r = (window mem h).drop (h.len - n.toNat) := by
   obtain ⟨hlc, _⟩ := hw
   by_cases hlt : (h.len : Int) < n
-  · refine ⟨h, by simp [tail, hlt], rfl, by omega, ?_⟩
+  · refine ⟨h, by simp [tail_def, hlt], rfl, by omega, ?_⟩
     have : h.len - n.toNat = 0 := by omega
     rw [this, List.drop_zero]
   · obtain ⟨k, rfl⟩ : ∃ k : Nat, n = k := ⟨n.toNat, by omega⟩
     have hk : k ≤ h.len := by omega
     refine ⟨⟨h.off + (h.len - k), h.len - (h.len - k), h.cap - (h.len - k)⟩, ?_, ?_, ?_, ?_⟩
-    · simp only [tail, if_neg hlt]
+    · simp only [tail_def, if_neg hlt]
       have e : (h.len : Int) - (k : Int) = ((h.len - k : Nat) : Int) := by omega
       rw [e]
       exact slice2_nat h (h.len - k) h.len (by omega) (by omega)
@@ -314,7 +314,7 @@ theorem tail_spec (mem : List α) (h : Hdr) (hw : h.WF mem.length) (n : Int) (hn
 
 theorem tail_neg (h : Hdr) (n : Int) (hn : n < 0) : tail h n = .panic "bounds" := by
   have : ¬ ((h.len : Int) < n) := by omega
-  simp only [tail, if_neg this, slice2]
+  simp only [tail_def, if_neg this, slice2]
   rw [if_neg (by omega)]
 
 example : head ⟨2, 7, 10⟩ 3 = .ok ⟨2, 3, 10⟩ ∧ tail ⟨2, 7, 10⟩ 3 = .ok ⟨6, 3, 6⟩
@@ -330,17 +330,17 @@ theorem stripe_spec [Inhabited α] (vs : List (List α)) (i : Int) (hi : 0 ≤ i
   | cons v vs ih =>
     by_cases hlt : i < v.length
     · have hlt' : i.toNat < v.length := by omega
-      simp only [stripe, if_pos hlt, if_pos hi, ih, Res.map, List.filterMap_cons,
+      simp only [stripe_cons, if_pos hlt, if_pos hi, ih, Res.map, List.filterMap_cons,
         List.getElem?_eq_getElem hlt', List.getD_eq_getElem?_getD, Option.getD_some]
     · have hge : v.length ≤ i.toNat := by omega
-      simp only [stripe, if_neg hlt, ih, List.filterMap_cons, List.getElem?_eq_none hge]
+      simp only [stripe_nil, stripe_cons, if_neg hlt, ih, List.filterMap_cons, List.getElem?_eq_none hge]
 
 /-- a negative `i` (not documented) indexes the first slice out of range -/
 theorem stripe_neg [Inhabited α] (v : List α) (vs : List (List α)) (i : Int) (hi : i < 0) :
     stripe (v :: vs) i = .panic "index" := by
   have h1 : i < (v.length : Int) := by omega
   have h2 : ¬ (0 ≤ i) := by omega
-  simp only [stripe, if_pos h1, if_neg h2]
+  simp only [stripe_nil, stripe_cons, if_pos h1, if_neg h2]
 
 example : stripe [[1, 2, 3], [4], [], [5, 6]] (1 : Int) = .ok [2, 6] := by decide
 
@@ -367,14 +367,14 @@ theorem at_spec [Inhabited α] (ss : List α) (i : Int) :
       have hj : i.toNat < ss.length := by omega
       refine ⟨ss[i.toNat], List.getElem?_eq_getElem hj, ?_⟩
       have : ¬ i < 0 := by omega
-      simp only [atIdx, indexCheck, if_neg this]
+      simp only [atIdx, indexCheck_def, if_neg this]
       simp [h1, List.getD_eq_getElem?_getD]
     · split at hr
       · rename_i h1 h2
         cases hr
         have hj : ss.length - (-i).toNat < ss.length := by omega
         refine ⟨ss[ss.length - (-i).toNat], List.getElem?_eq_getElem hj, ?_⟩
-        simp only [atIdx, indexCheck, if_pos h2.1]
+        simp only [atIdx, indexCheck_def, if_pos h2.1]
         have e : (i + (ss.length : Int)).toNat = ss.length - (-i).toNat := by omega
         have h3 : i + (ss.length : Int) ≥ 0 ∧ i + (ss.length : Int) < ss.length := by omega
         simp [h3, e, List.getD_eq_getElem?_getD, List.getElem?_eq_getElem hj]
@@ -387,10 +387,10 @@ theorem at_spec [Inhabited α] (ss : List α) (i : Int) :
       · rename_i h1 h2
         by_cases hneg : i < 0
         · have : ¬ (i + (ss.length : Int) ≥ 0 ∧ i + (ss.length : Int) < ss.length) := by omega
-          simp only [atIdx, indexCheck, if_pos hneg, decide_eq_false this]
+          simp only [atIdx, indexCheck_def, if_pos hneg, decide_eq_false this]
           rfl
         · have : ¬ (i ≥ 0 ∧ i < (ss.length : Int)) := by omega
-          simp only [atIdx, indexCheck, if_neg hneg, decide_eq_false this]
+          simp only [atIdx, indexCheck_def, if_neg hneg, decide_eq_false this]
           rfl
 
 /-- **PtrAt(ss, i)**: a pointer to the designated cell of the backing array — reading through it
@@ -407,13 +407,13 @@ theorem ptrAt_spec (mem : List α) (h : Hdr) (i : Int) :
       cases hr
       have : ¬ i < 0 := by omega
       refine ⟨?_, mem_getElem?_window mem h _ (by omega)⟩
-      simp only [ptrAt, indexCheck, if_neg this]
+      simp only [ptrAt, indexCheck_def, if_neg this]
       simp [h1]
     · split at hr
       · rename_i h1 h2
         cases hr
         refine ⟨?_, mem_getElem?_window mem h _ (by omega)⟩
-        simp only [ptrAt, indexCheck, if_pos h2.1]
+        simp only [ptrAt, indexCheck_def, if_pos h2.1]
         have h3 : i + (h.len : Int) ≥ 0 ∧ i + (h.len : Int) < h.len := by omega
         simp only [h3, and_self, decide_true, if_true, Option.some.injEq]
         omega
@@ -425,15 +425,83 @@ theorem ptrAt_spec (mem : List α) (h : Hdr) (i : Int) :
       · cases hr
       · by_cases hneg : i < 0
         · have : ¬ (i + (h.len : Int) ≥ 0 ∧ i + (h.len : Int) < h.len) := by omega
-          simp only [ptrAt, indexCheck, if_pos hneg, decide_eq_false this]
+          simp only [ptrAt, indexCheck_def, if_pos hneg, decide_eq_false this]
           rfl
         · have : ¬ (i ≥ 0 ∧ i < (h.len : Int)) := by omega
-          simp only [ptrAt, indexCheck, if_neg hneg, decide_eq_false this]
+          simp only [ptrAt, indexCheck_def, if_neg hneg, decide_eq_false this]
           rfl
 
 example : atIdx [10, 20, 30] (-1 : Int) = .ok 30 ∧ atIdx [10, 20, 30] (2 : Int) = .ok 30
     ∧ atIdx [10, 20, 30] (-4 : Int) = .panic "index out of range"
     ∧ atIdx [10, 20, 30] (3 : Int) = .panic "index out of range" := by decide
 example : ptrAt ⟨2, 3, 5⟩ (-1) = some 4 ∧ ptrAt ⟨2, 3, 5⟩ 3 = none ∧ ptrAt ⟨2, 3, 5⟩ (-4) = none := by decide
+
+/-! ## the regenerated facts -/
+
+/-- **C17_current.**  The facts regenerated from `slice/slice.go` (`Gen.Slice`, written by
+`extract/slice.go` on every run: the guards, arithmetic and slicing shapes of Partition, sliceCheck,
+indexCheck, Rotate, gcd, Chunks, Batches, Head, Tail, Stripe) are the pinned ones, and the extractor
+recognised the statement skeleton of every one of these functions.  `Model.Slice` is built from exactly
+these definitions (the lemmas of `Proofs/SliceDefs.lean` restate it with the expressions written out),
+so the theorems above are about the expressions that are in the source now; a one-token change in any of
+them changes `Gen/Slice.lean`, and this theorem and the `*_def` lemma of the function concerned no longer
+compile.  In particular `chunksClip`/`batchesClip`/`partitionClips` say that the subslices handed out are
+the capacity-clipped `vs[i:end:end]` / `vs[:i:i]` (what `append_safe` needs), and `batchesGuardsEmpty`
+that `Batches` has the empty-input guard of commit fd281a1 (finding F3). -/
+theorem C17_current :
+    MdsVerif.Gen.Slice.recognised = true ∧
+    -- Partition
+    (∀ len, Gen.Slice.partitionEmpty len = decide (len = 0)) ∧
+    (∀ i, Gen.Slice.partitionJ i = i + 1) ∧
+    (∀ j len, Gen.Slice.partitionDone j len = decide (j = len)) ∧
+    Gen.Slice.partitionClips = true ∧
+    -- sliceCheck, indexCheck
+    (∀ i, Gen.Slice.sliceCheckNeg i = decide (i < 0)) ∧
+    (∀ i n, Gen.Slice.sliceCheckNorm i n = i + n) ∧
+    (∀ i n, Gen.Slice.sliceCheckOk i n = (decide (i ≥ 0) && decide (i ≤ n))) ∧
+    (∀ i, Gen.Slice.indexCheckNeg i = decide (i < 0)) ∧
+    (∀ i n, Gen.Slice.indexCheckNorm i n = i + n) ∧
+    (∀ i n, Gen.Slice.indexCheckOk i n = (decide (i ≥ 0) && decide (i < n))) ∧
+    -- Rotate, gcd
+    (∀ k n, Gen.Slice.rotateNoop k n = (decide (k = 0) || decide (k = n))) ∧
+    (∀ k n, Gen.Slice.rotateGcdFst k n = k) ∧ (∀ k n, Gen.Slice.rotateGcdSnd k n = n) ∧
+    (∀ i k n, Gen.Slice.rotateNext i k n = (i + k) % n) ∧
+    (∀ next j, Gen.Slice.rotateCycleDone next j = decide (next = j)) ∧
+    (∀ a b, Gen.Slice.gcdContinues a b = decide (b ≠ 0)) ∧
+    (∀ a b, Gen.Slice.gcdNextA a b = b) ∧ (∀ a b, Gen.Slice.gcdNextB a b = a % b) ∧
+    -- Chunks
+    (∀ n, Gen.Slice.chunksPanics n = decide (n < 0)) ∧
+    (∀ n len, Gen.Slice.chunksWhole n len = (decide (n = 0) || decide (n ≥ len))) ∧
+    (∀ i len, Gen.Slice.chunksContinues i len = decide (i < len)) ∧
+    (∀ i n len, Gen.Slice.chunksEnd i n len = min (i + n) len) ∧
+    Gen.Slice.chunksClip = true ∧
+    -- Batches
+    (∀ n, Gen.Slice.batchesPanics n = decide (n < 0)) ∧
+    (∀ n, Gen.Slice.batchesNil n = decide (n = 0)) ∧
+    (∀ n len, Gen.Slice.batchesCaps n len = decide (n > len)) ∧
+    (∀ n len, Gen.Slice.batchesCapped n len = len) ∧
+    Gen.Slice.batchesGuardsEmpty = true ∧
+    (∀ n, Gen.Slice.batchesEmpty n = decide (n = 0)) ∧
+    (∀ len n, Gen.Slice.batchesSize len n = len / n) ∧
+    (∀ len n, Gen.Slice.batchesRem len n = len % n) ∧
+    (∀ i len, Gen.Slice.batchesContinues i len = decide (i < len)) ∧
+    (∀ i size, Gen.Slice.batchesEnd i size = i + size) ∧
+    (∀ rem, Gen.Slice.batchesHasRem rem = decide (rem > 0)) ∧
+    (∀ e, Gen.Slice.batchesEndInc e = e + 1) ∧
+    (∀ rem, Gen.Slice.batchesRemDec rem = rem - 1) ∧
+    Gen.Slice.batchesClip = true ∧
+    -- Head, Tail, Stripe
+    (∀ len n, Gen.Slice.headWhole len n = decide (len < n)) ∧
+    (∀ len n, Gen.Slice.tailWhole len n = decide (len < n)) ∧
+    (∀ len n, Gen.Slice.tailStart len n = len - n) ∧
+    (∀ i len, Gen.Slice.stripeHas i len = decide (i < len)) :=
+  ⟨rfl, fun _ => rfl, fun _ => rfl, fun _ _ => rfl, rfl,
+   fun _ => rfl, fun _ _ => rfl, fun _ _ => rfl, fun _ => rfl, fun _ _ => rfl, fun _ _ => rfl,
+   fun _ _ => rfl, fun _ _ => rfl, fun _ _ => rfl, fun _ _ _ => rfl, fun _ _ => rfl, fun _ _ => rfl,
+   fun _ _ => rfl, fun _ _ => rfl,
+   fun _ => rfl, fun _ _ => rfl, fun _ _ => rfl, fun _ _ _ => rfl, rfl,
+   fun _ => rfl, fun _ => rfl, fun _ _ => rfl, fun _ _ => rfl, rfl, fun _ => rfl, fun _ _ => rfl,
+   fun _ _ => rfl, fun _ _ => rfl, fun _ _ => rfl, fun _ => rfl, fun _ => rfl, fun _ => rfl, rfl,
+   fun _ _ => rfl, fun _ _ => rfl, fun _ _ => rfl, fun _ _ => rfl⟩
 
 end MdsVerif.Props.C17
